@@ -154,4 +154,81 @@ static void print_chain_status(psX509Cert_t *c)
     }
 }
 
+/* Honest control: client trusting caFile connects (expectedName localhost)
+   to a server that presents certFile(+chain)/keyFile.  Returns 1 when the
+   handshake completes. */
+__attribute__((unused))
+static int control_connect(const char *label, const char *caFile,
+                           const char *certFile, const char *keyFile,
+                           psProtocolVersion_t ver, sslCertCb_t cb)
+{
+    sslKeys_t *ck, *sk;
+    ssl_t *cli = NULL, *srv = NULL;
+    sslSessOpts_t co, so;
+    psProtocolVersion_t v[1];
+    int ok;
+
+    printf("-- control: %s\n", label);
+    v[0] = ver;
+    if (matrixSslNewKeys(&ck, NULL) < 0 ||
+        matrixSslLoadRsaKeys(ck, NULL, NULL, NULL, caFile) < 0 ||
+        matrixSslNewKeys(&sk, NULL) < 0 ||
+        matrixSslLoadRsaKeys(sk, certFile, keyFile, NULL, NULL) < 0)
+    {
+        printf("   control key load failed\n");
+        return 0;
+    }
+    memset(&co, 0, sizeof(co));
+    memset(&so, 0, sizeof(so));
+    matrixSslSessOptsSetClientTlsVersions(&co, v, 1);
+    matrixSslSessOptsSetServerTlsVersions(&so, v, 1);
+    if (matrixSslNewServerSession(&srv, sk, NULL, &so) < 0 ||
+        matrixSslNewClientSession(&cli, ck, NULL, NULL, 0, cb, "localhost",
+            NULL, NULL, &co) < 0)
+    {
+        printf("   control session creation failed\n");
+        return 0;
+    }
+    ok = run_handshake(cli, srv);
+    printf("   handshake %s\n", ok ? "completed (as it must)" : "FAILED");
+    matrixSslDeleteSession(cli);
+    matrixSslDeleteSession(srv);
+    matrixSslDeleteKeys(ck);
+    matrixSslDeleteKeys(sk);
+    return ok;
+}
+
+/* Honest control at the validator API: must return 0 and all PASS */
+__attribute__((unused))
+static int control_validate(const char *label, const char *chainFile,
+                            const char *caFile)
+{
+    psX509Cert_t *chain = NULL, *trusted = NULL, *found = NULL, *c;
+    int32 rc;
+    int ok = 1;
+
+    printf("-- control: %s\n", label);
+    if (psX509ParseCertFile(NULL, chainFile, &chain, 0) < 0 ||
+        psX509ParseCertFile(NULL, caFile, &trusted, 0) < 0)
+    {
+        printf("   control parse failed\n");
+        return 0;
+    }
+    rc = matrixValidateCerts(NULL, chain, trusted, "localhost", &found, NULL,
+            NULL);
+    for (c = chain; c; c = c->next)
+    {
+        if (c->authStatus != PS_CERT_AUTH_PASS)
+        {
+            ok = 0;
+        }
+    }
+    ok = ok && rc == PS_SUCCESS;
+    printf("   matrixValidateCerts rc=%d -> %s\n", (int) rc,
+        ok ? "accepted (as it must)" : "REJECTED");
+    psX509FreeCert(chain);
+    psX509FreeCert(trusted);
+    return ok;
+}
+
 #endif
